@@ -972,9 +972,6 @@ fn sound(faulty: bool) {
     with(|w| {
         let mut d = SoundDev::new();
         d.faulty = faulty;
-        // After an error status pcm_xfer returns with transfers still posted; that hazard is
-        // outside this property (see C09) - do not report it here.
-        w.cfg.heap_watch = !faulty;
         if both_output {
             // direction stays as reported; the driver does not restrict transfers by direction
         }
